@@ -168,13 +168,18 @@ class C03(PropCheck):
             for _ in range(case.get("step", 0)):
                 try:
                     ch.driver.send(None)
-                except (StopIteration, StopAsyncIteration):
-                    break
+                except (StopIteration, StopAsyncIteration, chains.Probe2):
+                    break          # (the thrown-into generator re-raises what was thrown once its cleanup is done)
             st = stackscope.extract(ch.x)
             st_nc = stackscope.extract(ch.x, with_contexts=False)
             env, ids = heap_env(ch.x)
             case["_env"] = env
             out = show(st, ids)
+            dropped_self = "with_del_self" in case.get("links", [])
+            if dropped_self:
+                # with contexts on, the one thing that cannot be determined (the exiting manager whose __aexit__ deleted its
+                # `self`) is reported as a contained KeyError; everything else must be as without contexts
+                out = show(st_nc, ids)
             # ---- oracle -----------------------------------------------------------------------
             prob = None
             if st.root is not ch.x:
@@ -182,8 +187,10 @@ class C03(PropCheck):
             elif [f.pyframe for f in st.frames] != [f.pyframe for f in st_nc.frames] or \
                     [f.lineno for f in st.frames] != [f.lineno for f in st_nc.frames]:
                 prob = "with_contexts on/off give different frames"
-            elif st.error is not None:
+            elif st.error is not None and not (dropped_self and all(isinstance(e, KeyError) for e in getattr(st.error, "exceptions", [st.error]))):
                 prob = f"error {st.error!r}"
+            elif st_nc.error is not None:
+                prob = f"error without contexts {st_nc.error!r}"
             frames = [(f.pyframe, f.lineno) for f in st.frames]
             leaf = st.leaf
             finished = chains.frame_of(ch.x) is None
